@@ -659,7 +659,7 @@ theorem sizeInit_good (B : Nat) (hB : 0 < B) (p : PairSpec α) (hl : p.recvIdx.l
   have := init_inv (sizeSide p.h B hB (p.sendIdx.map p.h.size)) p.sendIdx p.recvIdx hl
     (sizeHandle_fits p.h B hB p.sendIdx) 0 (sendT 0 0 p.recvIdx 1) (sendT_skip ..) (List.replicate p.recvIdx.length 0)
     ⟨[], by simp [hl], rfl, by simp⟩
-  simpa [sizeInit, sizeCfg, cfgOf, mk'_send] using this
+  simpa [sizeInit, sizeCfg, mk'_send] using this
 
 /-- what a finished data-phase component has scattered -/
 theorem goodData_final_acc (B : Nat) (p : PairSpec α) (x : Comp α (List (Call α))) (hg : GoodData B p x)
@@ -695,7 +695,7 @@ theorem init_measure_le {β σ : Type} (hd : Handle β) (B f : Nat) (getCount : 
     cases (setupSend hd (sendT 0 0 IS f) (MessageBuffer.new B)).message <;> simp
   have hw1 : ∀ r : SendReq, r.weight ≤ 1 := by intro r; cases r <;> simp [SendReq.weight]
   have hw2 : ∀ r : RecvReq β, r.weight ≤ 1 := by intro r; cases r <;> simp [RecvReq.weight]
-  simp only [Pair.measure, Pair.init, cfgOf, h1, sendT_left, setupRecv, if_true]
+  simp only [Pair.measure, Pair.init, h1, sendT_left, setupRecv, if_true]
   have a1 := hw1 (if (setupSend hd (sendT 0 0 IS f) (MessageBuffer.new B)).message.isSome = true then SendReq.active
     else SendReq.null)
   have a2 := hw2 (if decide (rt0.skipZeroIndices.indicesLeft ≠ 0) = true then RecvReq.posted else RecvReq.null)
